@@ -1,34 +1,57 @@
 """C01 — every scheduled test accounted for exactly once; the run terminates."""
 import common as C
-from props._sched import SchedStream
+from props._runcommon import RUN_TRUSTED, RUN_ASSUMPTIONS, PropRunStream
+from run import selftest as W
 
 PROPERTY = "C01"
-LEAN_MODULES = ["LccModel.Props.C01"]
-PROPS_FILES = ["LccModel/Props/C01.lean"]
-NAMESPACES = {"LccModel/Props/C01.lean": "LccModel.C01"}
-DRIVER = "drivers/Sched.lean"
-TRUSTED_BASE = [
-    "Lean 4.33.0 kernel; axioms of the property theorems ⊆ {propext, Classical.choice, Quot.sound}",
-    "hand-written model LccModel/Model/Sched.lean of task.py (run_tasks, pop_runnable_tasks, handle_task, run_task, skip_task, skip_all_tasks)",
-    "trace-inclusion harness: harness/obs/schedrec.py (recording Pool/Queue/handle_task wrappers) + drivers/Sched.lean (acceptor)",
-    "multiprocessing.dummy.Pool and queue.Queue behave as FIFO, unbounded, blocking-get containers (abstracted to 'any queued / any done task')",
-]
-ASSUMPTIONS = [
-    "the pool runs at most nb_threads tasks at once; a task put on the completion queue is eventually received",
-    "KeyboardInterrupt is delivered to the main thread while it waits in completed_tasks_queue.get (the interrupt inside apply_async is C08's stream)",
-]
-RULE = ("random dependency DAG (≤ 40 tasks, on-success and on-completion edges, arbitrary list order) × behaviour per task "
-        "(ok / TaskFailure / exception / exception in skip) × nb_threads 1..8 × gate strategy; non-trivial = ≥ 2 tasks, ≥ 1 edge, "
-        "and (1 thread, or completion order differs from list order, or an interrupt was injected); distinct = hash of the case")
-EXPLANATION = ("Deadlock-freedom, bounded executions and exactly-once handling are Lean theorems over every task graph, worker count and "
-               "interleaving; each real run_tasks execution is replayed label by label on the same transition function.")
+LEAN_MODULES = ["LccModel.Props.C01", "LccModel.Props.C01Graph", "LccModel.Props.C01Run"]
+PROPS_FILES = ["LccModel/Props/C01.lean", "LccModel/Props/C01Graph.lean", "LccModel/Props/C01Run.lean"]
+NAMESPACES = {"LccModel/Props/C01.lean": "LccModel.C01", "LccModel/Props/C01Graph.lean": "LccModel.C01Graph", "LccModel/Props/C01Run.lean": "LccModel.C01Run"}
+DRIVER = "drivers/Run.lean"
+TRUSTED_BASE = RUN_TRUSTED + ["scheduler-only stream: harness/props/_sched.py drives the real run_tasks with synthetic tasks (drivers/Sched.lean)"]
+ASSUMPTIONS = RUN_ASSUMPTIONS + ["Valid P (Lemmas/Graph.lean): sibling suite names distinct incl. the top level (the top level is NOT checked by the real loader: observation in DESIGN), test names distinct per suite, dependencies resolved and acyclic"]
+RULE = 'sched stream: random dependency DAG × behaviours × threads × gates; run stream: generated project (harness/run/gen.py) × nb_threads 1..8 × gate strategy (off/fifo/lifo/random) forcing completion orders; non-trivial = ≥ 2 tests, ≥ 1 body entered, ≥ 8 events; distinct = hash of the case (project + schedule parameters)'
+EXPLANATION = 'Deadlock freedom, bounded executions and exactly-once handling are Lean theorems for every well-formed task graph; buildTasks of every valid project is well-formed with exactly one task per scheduled test and one begin/end pair per suite (C01Graph); every real run is replayed on the composed model (scheduler × task behaviours × session × writer) and the report folded by the writer model must equal the real report.'
 
 
-class S(SchedStream):
+def witness(title_prefix):
+    """corpus case built from the hand-written witness table of harness/run/selftest.py"""
+    for title, sig, project, cfg in W.WITNESSES:
+        if title.startswith(title_prefix):
+            return {"project": dict(project, nb_threads=cfg["n"]), "strategy": cfg["strategy"], "gseed": cfg["gseed"],
+                    "interrupt": cfg["interrupt"], "fault": cfg["fault"]}
+    raise KeyError(title_prefix)
+
+
+from props._sched import SchedStream
+
+
+class Sched(SchedStream):
     name = "C01.sched"
-    with_interrupts = True
-    interrupt_apply = False
+    driver = "drivers/Sched.lean"
+    quick_cases = 300
+    quick_seconds = 30
+
+
+class Run(PropRunStream):
+    name = "C01.run"
+    prop = "C01"
+    profile = "basic"
+    oracles = ("C01",)
+    quick_cases = 270
+    quick_seconds = 45
+    corpus = [witness("D1 "), witness("D3 ")]
+
+
+class RunPT(PropRunStream):
+    name = "C01.run.perthread"
+    prop = "C01"
+    profile = "perthread"
+    oracles = ("C01",)
+    quick_cases = 120
+    quick_seconds = 30
+    thorough_cases = 4000
 
 
 def streams(ctx):
-    return [S()]
+    return [Sched(), Run(), RunPT()]
